@@ -85,7 +85,7 @@ def run_job(job, tree, trace=False):
            "reason": "", "solver": (job.solver or DEFAULT_SOLVER)[-1] if (job.solver or DEFAULT_SOLVER) else "minisat"}
     t_all = time.time()
     cc = ["goto-cc", "-I" + tree, "-I" + tree + "/include", "-I" + tree + "/src",
-          "-I" + tree + "/examples", "-DSKINNY_C_VERIF=1", "--function", job.entry] + \
+          "-I" + tree + "/examples", "-std=c99", "-DSKINNY_C_VERIF=1", "--function", job.entry] + \
         ["-D" + d for d in job.defs] + job.cflags + [os.path.join(tree, "harness", job.harness), "-o", a]
     rc, _ = sh(cc, tree, 300, log)
     if rc != 0:
@@ -114,10 +114,17 @@ def run_job(job, tree, trace=False):
     cb += [cur]
     res_file = os.path.join(wd, "cbmc.txt")
     t0 = time.time()
-    rc, secs = sh(cb, tree, job.timeout, res_file)
+    for ob in (None, "10", "12", "14"):
+        # R9: default object bits unless CBMC asks for more; then the smallest value that works
+        if os.path.exists(res_file):
+            os.remove(res_file)
+        cmd = cb[:-1] + (["--object-bits", ob] if ob else []) + cb[-1:]
+        rc, secs = sh(cmd, tree, job.timeout, res_file)
+        txt = open(res_file, errors="replace").read()
+        if "too many addressed objects" not in txt:
+            break
     out["time"] = time.time() - t_all
     out["solver_time"] = secs
-    txt = open(res_file, errors="replace").read()
     with open(log, "a") as fh:
         fh.write(txt[-200000:])
     if rc == -999:
